@@ -209,7 +209,7 @@ func (e *Engine) guardAcquire(s *State, a *Addr, in ssa.Instruction) {
 		if st == nil {
 			e.unsupportedf("guard on unknown struct %s", g.Struct)
 		}
-		private := s.FreshRefs[a.Base]
+		private := s.FreshRefs[a.Base] || e.Exclusive // sequential pass: no interference on any object
 		for _, f := range g.Fields {
 			ft := fieldTypeByPath(st, "."+f)
 			if ft == nil {
@@ -302,4 +302,13 @@ func (e *Engine) objRef(s *State, v *Val) string {
 	}
 	e.unsupportedf("pointer without object identity")
 	return ""
+}
+
+// isReceiverBase: is the term the receiver of the function under verification?
+func (e *Engine) isReceiverBase(base string) bool {
+	if e.entryState == nil || e.Fn.Signature.Recv() == nil || len(e.Fn.Params) == 0 {
+		return false
+	}
+	v := e.entryState.Entry[0].Params[e.Fn.Params[0].Name()]
+	return v != nil && len(v.L) == 1 && v.L[0] == base
 }
